@@ -97,6 +97,10 @@ func runC17(e *Env) error {
 		{"ignore-missing-nested-extends-missing", "a{% include 'extmissing' ignore missing %}b", true},
 		{"ignore-missing-nested-import-missing", "a{% include 'impmissing' ignore missing %}b", true},
 		{"ignore-missing-inner-failure", "a{% include 'bad' ignore missing %}b", true},
+		{"defined-on-subscript-failing-index", "a{% if xs[nosuchfn()] is defined %}y{% endif %}b", true},
+		{"defined-on-subscript-failing-container", "a{{ nosuchfn()[0] is defined }}b", true},
+		{"not-defined-on-subscript-failing-index", "a{% if xs[1|nosuchfilter] is not defined %}y{% endif %}b", true},
+		{"defined-on-subscript-failing-filter-in-index", "a{{ m1[x|nosuchfilter] is defined }}b", true},
 		{"tolerated-undefined-variable", "a{{ undefinedvar }}b", false},
 		{"tolerated-undefined-attribute", "a{{ m1.nosuch }}{{ undefinedvar.x.y }}b", false},
 		{"tolerated-ignore-missing", "a{% include 'nosuch' ignore missing %}b", false},
